@@ -10,7 +10,7 @@ Fixpoint vsrc (v : value) : list elem :=
   | VTok _ => []
   | VNode n => nsrc n
   | VStep s => step_elems s
-  | VDocString d => text_elems (ds_content d)
+  | VDocString d => EDoc (ds_loc d) (ds_delim d) (ds_media d) :: text_elems (ds_content d)
   | VDataTable _ rows => row_elems rows
   | VBackground b => bg_elems b
   | VScenario s => sc_elems s
@@ -114,7 +114,7 @@ Qed.
 
 Notation cflat3 := (cflat ic3 cpat).
 Notation citem_ok3 := (citem_ok ic3 cpat).
-Notation cnrel3 := (cnrel ic3 cpat cxr).
+Notation cnrel3 := (cnrel ic3 cpat cxr cfo).
 
 Lemma citem_single n k v : Forall citem_ok3 (node_items n) -> get_single n k = Some v -> citem_ok3 (k, v).
 Proof. intros F H. rewrite Forall_forall in F. apply F. apply get_single_in. exact H. Qed.
@@ -190,9 +190,10 @@ Definition keep_post (n : node) (r : tres value) : Prop :=
   match r with TOk v _ => vsrc v = iids3 (node_items n) | _ => True end.
 
 Ltac start_rule Hr N Sg F Xo :=
+  let Fi := fresh "Fi" in
   lazymatch goal with
   | H : cnrel3 ?af ?n |- _ =>
-    destruct H as ((Rt & N & Sg & F & Xo) & _); rewrite Hr in *; unfold transform_node; rewrite Rt; unfold tbind, opt_crash; cbn [cpat cgroups] in N
+    destruct H as ((Rt & N & Sg & F & Xo & Fi) & _); rewrite Hr in *; unfold transform_node; rewrite Rt; unfold tbind, opt_crash; cbn [cpat cgroups] in N
   end.
 
 Lemma keep_rows af n c i : cnrel3 af n -> af_rule af = RDataTable \/ af_rule af = RExamplesTable -> keep_post n (transform_node n c i).
@@ -213,12 +214,23 @@ Qed.
 
 Lemma keep_docstring af n c i : cnrel3 af n -> af_rule af = RDocString -> keep_post n (transform_node n c i).
 Proof.
-  intros H Hr. start_rule Hr N Sg F Xo. rewrite app_nil_r in N.
-  destruct (get_tokens n KDocStringSeparator) as [[|sep seps]|]; cbn [keep_post]; auto.
-  destruct (m_text sep); cbn [keep_post]; auto. destruct (m_keyword sep); cbn [keep_post]; auto.
+  intros H Hr. destruct H as ((Rt & N & Sg & F & Xo & Fi) & _). rewrite Hr in *. unfold transform_node. rewrite Rt. unfold opt_crash.
+  cbn [cpat cgroups] in N. rewrite app_nil_r in N.
+  cbn [cfo] in Fi. inversion Fi as [|k0 ks Fi1 _]; subst. unfold fo_inv in Fi1.
+  destruct (get_tokens n KDocStringSeparator) as [[|sep seps]|] eqn:Gs; cbn [keep_post]; auto.
+  destruct (m_text sep) as [mt|] eqn:Mt; cbn [keep_post]; auto. destruct (m_keyword sep) as [delim|] eqn:Mk; cbn [keep_post]; auto.
   destruct (get_tokens n KOther) as [lines|] eqn:G; cbn [keep_post]; auto.
   destruct (texts_of lines) as [texts|] eqn:T; cbn [keep_post]; auto.
-  cbn [vsrc ds_content]. rewrite N, (grp3_tok _ _ _ G), text_elems_join, <- (texts_of_elems _ _ T). reflexivity.
+  cbn [vsrc ds_content ds_loc ds_delim ds_media]. rewrite N, (grp3_tok _ _ _ G), text_elems_join, <- (texts_of_elems _ _ T).
+  (* the delimiters: the first one is `sep`, the others carry nothing *)
+  assert (Es : grp3 (node_items n) (KT KDocStringSeparator) = tok_elems KDocStringSeparator sep).
+  { unfold get_tokens, get_items in Gs. fold (kfilter (KT KDocStringSeparator) (node_items n)) in Gs. unfold cgrp.
+    destruct (kfilter (KT KDocStringSeparator) (node_items n)) as [|[k1 v1] rest] eqn:Kf; [discriminate|].
+    assert (Hin : In (k1, v1) (kfilter (KT KDocStringSeparator) (node_items n))) by (rewrite Kf; now left).
+    apply filter_In in Hin as [_ Hk]. cbn in Hk. apply key_beq_eq in Hk. subst k1.
+    cbn [map snd toks_of] in Gs. destruct v1; try discriminate. destruct (toks_of (map snd rest)); [|discriminate]. inversion Gs; subst.
+    cbn [flat_map]. rewrite Fi1, app_nil_r. reflexivity. }
+  rewrite Es. unfold tok_elems. rewrite Mt, Mk. reflexivity.
 Qed.
 
 Lemma line_elem k t kw text : m_keyword t = Some kw -> m_text t = Some text ->
